@@ -400,6 +400,7 @@ type c20Result struct {
 	files                             []*recFile
 	prefixTruncations, framesRecorded int
 	keyFlagMismatch                   int
+	avChecked                         int
 }
 
 // checkTrack verifies the blocks of one track across the files against the model.
@@ -719,6 +720,42 @@ func runRecording(t *rapid.T, mode string, vmime string) (canon string, nt bool,
 		// audio next to video: contiguous from the first recorded audio frame on
 		checkTrack(t, "audio(with video)", a, ablocks, true, false, &c20Result{}, ad.startSwap)
 	}
+	if a != nil && v != nil && withSR {
+		// audio and video share one time origin: both tracks' sender reports map their first frame to the same instant,
+		// so an audio frame i (20 ms apart) recorded in a file whose first video keyframe is frame K (1/30 s apart)
+		// must carry i*20 - K*33.33 ms
+		aIdx := map[string]int{}
+		for _, f := range a.frames {
+			aIdx[string(f.data)] = f.idx
+		}
+		vIdx := map[string]int{}
+		for _, f := range v.frames {
+			vIdx[string(f.data)] = f.idx
+		}
+		for fi := range vblocks {
+			K := -1
+			for _, b := range vblocks[fi] {
+				if j, ok := vIdx[string(b.data)]; ok {
+					K = j - int((b.tc*90+1500)/3000) // the block's own offset from the file origin
+					break
+				}
+			}
+			if K < 0 {
+				continue
+			}
+			for _, b := range ablocks[fi] {
+				i, ok := aIdx[string(b.data)]
+				if !ok {
+					continue
+				}
+				want := float64(i)*20 - float64(K)*100/3
+				if d := float64(b.tc) - want; d < -2.5 || d > 2.5 {
+					t.Fatalf("C20: audio frame %d is at %d ms in a file whose video origin is frame %d: the sender reports place it at %.1f ms (audio and video do not share one time origin)", i, b.tc, K, want)
+				}
+				res.avChecked++
+			}
+		}
+	}
 	nt = ad.cacheGaps+vd.cacheGaps > 0 || ad.reordered || vd.reordered
 	canon = fmt.Sprint(mode, vmime, withSR, ad.order, vd.order, ad.lost, vd.lost)
 	if v != nil {
@@ -740,6 +777,7 @@ func runRecording(t *rapid.T, mode string, vmime string) (canon string, nt bool,
 	}
 	c20Rec.ClassN("excluded_known_resolution_change_in_batch(delivery_made_plain)", exclK4)
 	c20Rec.ClassN("observation_keyframe_flag_differs_from_source", res.keyFlagMismatch)
+	c20Rec.ClassN("audio_blocks_checked_against_sender_report_origin", res.avChecked)
 	c20Rec.Class("mode_" + mode)
 	return
 }
